@@ -103,9 +103,9 @@ def s_case(draw, max_len=5, max_steps=40):
 
 def parts(tier):
     if tier == 'quick':
-        return [Part('worm-chains', check, strategy=s_case(), examples=150, shards=4),
+        return [Part('worm-chains', check, strategy=s_case(), examples=300, shards=4),
                 Part('free-chains', check, strategy=G.s_case_controlled(max_len=5, worm='no', max_steps=30),
-                     examples=40, shards=2)]
+                     examples=80, shards=2)]
     return [Part('worm-chains', check, strategy=s_case(max_len=8, max_steps=120), examples=2500, shards=14),
             Part('free-chains', check, strategy=G.s_case_controlled(max_len=8, worm='no', max_steps=80),
                  examples=2000, shards=2)]
